@@ -237,12 +237,14 @@ def rule_pairing(ck, rid="C01.R4"):
     n_sites = 0
     for nm in ("add_event", "add_events"):
         for f, c in who_calls(repo, nm):
-            n_sites += 1
+            # the queue's own methods calling each other is how the queue is written, not who adds events: the confirmed instances are
+            # the sites outside EventQueue plus its constructor
+            n_sites += 0 if (f is not None and f.cls is not None and f.cls.name == "EventQueue" and f.name != "__init__") else 1
             q = f.qual if f is not None else "<module>"
             ck.require(q in allowed or q == "EventQueue.add_event", rid, f or "module level", c,
                        ok=f"{nm} called from {q}", bad=f"{nm} called from {q}: events may be added during a run from an unexpected place",
                        sink=f"{nm}-caller:{q}")
-    ck.floor(rid, n_sites, 3, "call sites of add_event/add_events")
+    ck.floor(rid, n_sites, 2, "call sites of add_event/add_events outside the queue's own methods")
 
     # (that ChargingNetwork.plugin hands `ev` to the EVSE registered under ev.station_id, on every returning path, is C01.R9)
 
@@ -397,7 +399,13 @@ def rule_loop(ck, rid="C01.R6"):
     ck.require(arg is not None and is_lin(fl, arg, gn, {"self._iteration": 1}), rid + "a", run0, gc,
                ok="events are popped for exactly the current period", bad="get_current_events must be called with exactly self._iteration",
                sink="pop-argument")
-    others = [n for n in body if n.kind in ("stmt", "test", "for", "return", "with") and n is not gn]
+    def pure_local(n):
+        """`name = <expression without calls>`: reads state into a local, changes nothing - may stand anywhere"""
+        st = n.stmt if n.kind == "stmt" else None
+        return isinstance(st, (ast.Assign, ast.AnnAssign)) and getattr(st, "value", None) is not None \
+            and all(isinstance(t, ast.Name) for t in (st.targets if isinstance(st, ast.Assign) else [st.target])) \
+            and not any(isinstance(x, (ast.Call, ast.Await, ast.Yield, ast.NamedExpr)) for x in ast.walk(st.value))
+    others = [n for n in body if n.kind in ("stmt", "test", "for", "return", "with") and n is not gn and not pure_local(n)]
     ck.require(all(cfg.dominates(gn, n) for n in others), rid + "a", run0, gc,
                ok="the pop dominates every other statement of the body", bad="a statement of the loop body can run before the events are popped",
                sink="pop-first")
